@@ -79,7 +79,7 @@ PROPS = {
     "C03": {
         "level_text": "The minimum-balance decision logic is stated outright in both directions (connect_refused_iff, update_cutoff_iff, hosts_never_refused, cutoff_disconnects) as Lean theorems over the balance-manager and pool models, which are compared with the real code on both drivers, with deposits injected through the contract proxy.",
         "level_note": POOL_NOTE,
-        "lean_modules": ["Vipnode.Props.C03"],
+        "lean_modules": ["Vipnode.Props.C03", "Vipnode.Props.C03E"],
         "streams": pool_streams(60, 600) + pool_streams(150, 2000, gen="pool-minbal", prefix="minbal") + [
             # the operator's flags through the built binary (pool.go: flag parsing and wiring)
             {"name": "poolbin-flags", "component": "poolbin", "cases": {"quick": 30, "thorough": 200}},
@@ -184,8 +184,8 @@ PROPS = {
         "level_note": "Partial by nature: the theorems cover the guards in vipnode's own code (Model/Guards.lean, Model/Server.lean); panics inside encoding/json, reflect, net/url, go-ethereum crypto and badger are reachable only by the fuzz stream, which samples. A reply carrying `result: null` next to an error counts as well-formed (the property asks for a result or an error).",
         "lean_modules": ["Vipnode.Props.C15"],
         "streams": [
-            {"name": "fuzz-memory", "component": "fuzz", "opts": {"driver": "memory"}, "cases": {"quick": 20, "thorough": 400}, "no_shrink": True},
-            {"name": "fuzz-badger", "component": "fuzz", "opts": {"driver": "badger"}, "cases": {"quick": 10, "thorough": 200}, "no_shrink": True},
+            {"name": "fuzz-memory", "component": "fuzz", "opts": {"driver": "memory"}, "cases": {"quick": 20, "thorough": 90}, "no_shrink": True},
+            {"name": "fuzz-badger", "component": "fuzz", "opts": {"driver": "badger"}, "cases": {"quick": 10, "thorough": 40}, "no_shrink": True},
             {"name": "rpc-replies", "component": "rpc", "cases": {"quick": 60, "thorough": 600}},
         ] + pool_streams(40, 400, gen="pool-nonce", prefix="badsig"),
     },
